@@ -22,7 +22,7 @@ theorem freshPair_of_selfKey (env : Env) (l1 l2 : Nat) (h1 : selfKey env l1 = tr
     rw [e1] at h1; rw [e2] at h2
     simp only [beq_iff_eq] at h1 h2
     by_cases h : r1 = r2
-    · subst h; simp [← h1, ← h2]
+    · subst h; simp [lineFunc, ← h1, ← h2]
     · simp [h]
   · rfl
 
@@ -53,19 +53,17 @@ def funcPos (env : Env) (i : Nat) : Option Nat :=
 structure FSRel (env : Env) (A : List Nat) (sF sS : MState) : Prop where
   /-- every func position is the position of the function of an opened scope key -/
   funcs : ∀ p ∈ sF.multi, ∃ k ∈ sS.visitedScopes, funcPos env (keyFunc env k) = some p
-  /-- every scope position comes from an active line whose key is opened -/
-  prov : ∀ p ∈ sS.multi, ∃ l ∈ A, ∃ k, keyOf env l = some k ∧ skipOf env l = .ok p ∧ k ∈ sS.visitedScopes
-  /-- every opened key has yielded a position -/
-  len : sS.visitedScopes.length ≤ sS.multi.length
+  /-- every opened key was opened by an active line whose insert position is a scope position -/
+  keys : ∀ k ∈ sS.visitedScopes, ∃ l ∈ A, keyOf env l = some k ∧ ∃ q ∈ sS.multi, skipOf env l = .ok q
   singles : sF.singles = sS.singles
 
 theorem FSRel.init (env : Env) (A : List Nat) : FSRel env A {} {} :=
-  ⟨(by intro p hp; cases hp), (by intro p hp; cases hp), Nat.le_refl _, rfl⟩
+  ⟨(by intro p hp; cases hp), (by intro p hp; cases hp), rfl⟩
 
 /-- one active line, both runs -/
 theorem force_func_scope (env : Env) (A : List Nat) (sF sF' sS sS' : MState) (l : Nat)
-    (hl : l ∈ A) (hcoh : cohLine env l = true) (hfresh : ∀ l' ∈ A, freshPair env l l' = true)
-    (hiF : Inv env sF)
+    (hl : l ∈ A) (hcoh : cohLine env l = true)
+    (hiF : Inv env sF) (hiS : Inv env sS)
     (hF : forceMark (env.withGran .func) sF l = .ok sF') (hS : forceMark (env.withGran .scope) sS l = .ok sS')
     (hJ : FSRel env A sF sS) : FSRel env A sF' sS' := by
   simp only [forceMark, Env.withGran] at hF hS
@@ -86,53 +84,39 @@ theorem force_func_scope (env : Env) (A : List Nat) (sF sF' sS sS' : MState) (l 
     obtain ⟨hkf, hin⟩ := hcoh
     -- the key is opened after the step, and the relation on the scope side is kept
     have hscope : t.search l ∈ sS'.visitedScopes ∧ (∀ k ∈ sS.visitedScopes, k ∈ sS'.visitedScopes) ∧
-        (∀ p ∈ sS'.multi, ∃ l0 ∈ A, ∃ k, keyOf env l0 = some k ∧ skipOf env l0 = .ok p ∧ k ∈ sS'.visitedScopes) ∧
-        sS'.visitedScopes.length ≤ sS'.multi.length ∧ sS'.singles = sS.singles := by
+        (∀ k ∈ sS'.visitedScopes, ∃ l0 ∈ A, keyOf env l0 = some k ∧ ∃ q ∈ sS'.multi, skipOf env l0 = .ok q) ∧
+        sS'.singles = sS.singles := by
       split at hS
       · next hv =>
         cases hS
-        exact ⟨by simpa [List.contains_iff_mem] using hv, fun _ h => h, hJ.prov, hJ.len, rfl⟩
+        exact ⟨by simpa [List.contains_iff_mem] using hv, fun _ h => h, hJ.keys, rfl⟩
       · next hv =>
-        have hnv : t.search l ∉ sS.visitedScopes := by simpa [List.contains_iff_mem] using hv
         have hmi : markInsert env { sS with visitedScopes := t.search l :: sS.visitedScopes } l = .ok sS' := by
           have := withGran_markInsert env .scope { sS with visitedScopes := t.search l :: sS.visitedScopes } l
           simp only [Env.withGran] at this
           rw [← this]; exact hS
-        unfold markInsert at hmi
-        cases hs : skipComments env (env.comments.size + 1) l with
-        | error e => rw [hs] at hmi; cases hmi
-        | ok r =>
-          rw [hs] at hmi; simp only at hmi
-          have hs' : skipOf env l = .ok r := hs
-          rw [hs'] at hin; simp only [bne_iff_ne, ne_eq] at hin
-          have hr0 : (searchScopes env.funcs r == 0) = false := by simpa using hin
-          rw [hr0] at hmi; simp only [Bool.false_eq_true, ↓reduceIte] at hmi
-          -- r is fresh: otherwise its provenance line would have the same (unopened) key
-          have hfreshr : r ∉ sS.multi := by
-            intro hm
-            obtain ⟨l0, hl0, k0, hk0, hs0, hv0⟩ := hJ.prov r hm
-            have := hfresh l0 hl0
-            unfold freshPair at this
-            rw [hs', hs0] at this
-            simp only [bne_self_eq_false, Bool.false_or, beq_iff_eq] at this
-            rw [hk, hk0] at this
-            cases this
-            exact hnv hv0
-          have hc : (sS.multi.contains r) = false := by simpa [List.contains_iff_mem] using hfreshr
-          rw [hc] at hmi; simp only [Bool.false_eq_true, ↓reduceIte] at hmi
-          cases hmi
-          refine ⟨List.mem_cons_self, fun k hk' => List.mem_cons_of_mem _ hk', ?_, ?_, rfl⟩
-          · intro p hp
-            rcases List.mem_append.mp hp with h1 | h1
-            · obtain ⟨l0, hl0, k0, hk0, hs0, hv0⟩ := hJ.prov p h1
-              exact ⟨l0, hl0, k0, hk0, hs0, List.mem_cons_of_mem _ hv0⟩
-            · simp only [List.mem_cons, List.not_mem_nil, or_false] at h1
-              subst h1
-              exact ⟨l, hl, t.search l, hk, hs', List.mem_cons_self⟩
-          · simp only [List.length_cons, List.length_append, List.length_nil]
-            have := hJ.len
-            omega
-    obtain ⟨hkin, hmono, hprov, hlen, hsingS⟩ := hscope
+        have hinv' : Inv env { sS with visitedScopes := t.search l :: sS.visitedScopes } :=
+          ⟨hiS.nodup, hiS.notComment, hiS.inFunc, hiS.count⟩
+        have sp := markInsert_spec env _ sS' l hinv' hmi
+        have hvs : sS'.visitedScopes = t.search l :: sS.visitedScopes := sp.2.2.2.1
+        -- the insert position of `l` is a scope position afterwards
+        have hq : ∃ q ∈ sS'.multi, skipOf env l = .ok q := by
+          cases hs : skipComments env (env.comments.size + 1) l with
+          | error e =>
+            unfold markInsert at hmi; rw [hs] at hmi; cases hmi
+          | ok r =>
+            have hs' : skipOf env l = .ok r := hs
+            rw [hs'] at hin; simp only [bne_iff_ne, ne_eq] at hin
+            exact ⟨r, markInsert_mem_skip env _ sS' l r hs hin hmi, hs'⟩
+        refine ⟨by rw [hvs]; exact List.mem_cons_self, fun k hk' => by rw [hvs]; exact List.mem_cons_of_mem _ hk', ?_,
+          sp.2.2.1⟩
+        intro k hk'
+        rw [hvs] at hk'
+        rcases List.mem_cons.mp hk' with h1 | h1
+        · subst h1; exact ⟨l, hl, hk, hq⟩
+        · obtain ⟨l0, hl0, hk0, q, hq0, hs0⟩ := hJ.keys k h1
+          exact ⟨l0, hl0, hk0, q, sp.2.1 q hq0, hs0⟩
+    obtain ⟨hkin, hmono, hkeys, hsingS⟩ := hscope
     -- func side
     have hfunc : (∀ p ∈ sF'.multi, p ∈ sF.multi ∨ funcPos env (searchScopes env.funcs l) = some p) ∧
         sF'.singles = sF.singles := by
@@ -156,7 +140,7 @@ theorem force_func_scope (env : Env) (A : List Nat) (sF sF' sS sS' : MState) (l 
           · exact Or.inl h1
           · right
             simp only [funcPos, hfs, skipOf, h1, Except.toOption]
-    refine ⟨?_, hprov, hlen, by rw [hfunc.2, hsingS, hJ.singles]⟩
+    refine ⟨?_, hkeys, by rw [hfunc.2, hsingS, hJ.singles]⟩
     intro p hp
     rcases hfunc.1 p hp with h1 | h1
     · obtain ⟨k, hk1, hk2⟩ := hJ.funcs p h1
@@ -199,16 +183,16 @@ theorem inv_withGran (env : Env) (g : Gran) (st : MState) (h : Inv (env.withGran
 
 /-- one event, both runs -/
 theorem step_func_scope (env : Env) (A : List Nat) (all : List Ev) (hA : A = activeLines env all)
-    (hcoh : ∀ l ∈ A, cohLine env l = true) (hfresh : ∀ l1 ∈ A, ∀ l2 ∈ A, freshPair env l1 l2 = true)
+    (hcoh : ∀ l ∈ A, cohLine env l = true)
     (sF sF' sS sS' : MState) (ev : Ev) (hev : ev ∈ all)
-    (hiF : Inv (env.withGran .func) sF)
+    (hiF : Inv (env.withGran .func) sF) (hiS : Inv (env.withGran .scope) sS)
     (hF : stepEv (env.withGran .func) sF ev = .ok sF') (hS : stepEv (env.withGran .scope) sS ev = .ok sS')
     (hJ : FSRel env A sF sS) : FSRel env A sF' sS' := by
   cases ev with
   | force l =>
     have hl : l ∈ A := by rw [hA]; exact activeLines_mem_force env all l hev
-    exact force_func_scope env A sF sF' sS sS' l hl (hcoh l hl) (hfresh l hl)
-      (inv_withGran _ _ _ hiF) hF hS hJ
+    exact force_func_scope env A sF sF' sS sS' l hl (hcoh l hl)
+      (inv_withGran _ _ _ hiF) (inv_withGran _ _ _ hiS) hF hS hJ
   | check l =>
     simp only [stepEv, withGran_isChanged] at hF hS
     cases hch : env.isChanged l with
@@ -219,8 +203,8 @@ theorem step_func_scope (env : Env) (A : List Nat) (all : List Ev) (hA : A = act
       | true =>
         simp [hch] at hF hS
         have hl : l ∈ A := by rw [hA]; exact activeLines_mem_check env all l hev hch
-        exact force_func_scope env A sF sF' sS sS' l hl (hcoh l hl) (hfresh l hl)
-          (inv_withGran _ _ _ hiF) hF hS hJ
+        exact force_func_scope env A sF sF' sS sS' l hl (hcoh l hl)
+          (inv_withGran _ _ _ hiF) (inv_withGran _ _ _ hiS) hF hS hJ
   | single l c =>
     simp only [stepEv, withGran_isChanged] at hF hS
     cases hch : env.isChanged l with
@@ -230,10 +214,10 @@ theorem step_func_scope (env : Env) (A : List Nat) (all : List Ev) (hA : A = act
       | false => simp [hch] at hF hS; subst hF; subst hS; exact hJ
       | true =>
         simp [hch] at hF hS; subst hF; subst hS
-        exact ⟨hJ.funcs, hJ.prov, hJ.len, by simp [hJ.singles]⟩
+        exact ⟨hJ.funcs, hJ.keys, by simp [hJ.singles]⟩
 
 theorem run_func_scope (env : Env) (A : List Nat) (all : List Ev) (hA : A = activeLines env all)
-    (hcoh : ∀ l ∈ A, cohLine env l = true) (hfresh : ∀ l1 ∈ A, ∀ l2 ∈ A, freshPair env l1 l2 = true)
+    (hcoh : ∀ l ∈ A, cohLine env l = true)
     (evs : List Ev) : (∀ ev ∈ evs, ev ∈ all) →
     ∀ (sF sF' sS sS' : MState), Inv (env.withGran .func) sF → Inv (env.withGran .scope) sS →
       evs.foldlM (stepEv (env.withGran .func)) sF = .ok sF' → evs.foldlM (stepEv (env.withGran .scope)) sS = .ok sS' →
@@ -246,19 +230,37 @@ theorem run_func_scope (env : Env) (A : List Nat) (all : List Ev) (hA : A = acti
     intro hsub sF sF' sS sS' hiF hiS hF hS hJ
     obtain ⟨f1, hf1, hf2⟩ := (foldlM_ok_cons _ _ _ _ _).mp hF
     obtain ⟨s1, hs1, hs2⟩ := (foldlM_ok_cons _ _ _ _ _).mp hS
-    have s := step_func_scope env A all hA hcoh hfresh sF f1 sS s1 ev (hsub ev List.mem_cons_self) hiF hf1 hs1 hJ
+    have s := step_func_scope env A all hA hcoh sF f1 sS s1 ev (hsub ev List.mem_cons_self) hiF hiS hf1 hs1 hJ
     exact ih (fun e he => hsub e (List.mem_cons_of_mem _ he)) f1 sF' s1 sS'
       (stepEv_spec _ sF f1 ev hiF hf1).1 (stepEv_spec _ sS s1 ev hiS hs1).1 hf2 hs2 s
 
-/-- counting: a duplicate-free list whose members are all images of members of `ks` under a
-    partial map is no longer than `ks` -/
-theorem length_le_of_image {α β : Type} [DecidableEq β] (g : α → Option β) (ps : List β) (ks : List α)
-    (hn : ps.Nodup) (h : ∀ p ∈ ps, ∃ k ∈ ks, g k = some p) : ps.length ≤ ks.length := by
-  have hsub : ps ⊆ ks.filterMap g := by
-    intro p hp
-    obtain ⟨k, hk, hg⟩ := h p hp
-    exact List.mem_filterMap.mpr ⟨k, hk, hg⟩
-  exact Nat.le_trans (List.Nodup.length_le_of_subset hn hsub) (List.length_filterMap_le g ks)
+/-- counting: a duplicate-free list `ps`, every member related to a member of `qs` by a relation
+    under which a member of `qs` determines its partner, is no longer than `qs` -/
+theorem length_le_of_rel {α β : Type} [DecidableEq α] (R : β → α → Prop) :
+    ∀ (ps : List β) (qs : List α), ps.Nodup → (∀ p ∈ ps, ∃ q ∈ qs, R p q) →
+      (∀ p1 p2 q, R p1 q → R p2 q → p1 = p2) → ps.length ≤ qs.length := by
+  intro ps
+  induction ps with
+  | nil => intro qs _ _ _; simp
+  | cons p ps ih =>
+    intro qs hn htot hinj
+    obtain ⟨q, hq, hR⟩ := htot p List.mem_cons_self
+    have hn' := List.nodup_cons.mp hn
+    have h1 : ps.length ≤ (qs.erase q).length := by
+      apply ih (qs.erase q) hn'.2 _ hinj
+      intro p' hp'
+      obtain ⟨q', hq', hR'⟩ := htot p' (List.mem_cons_of_mem _ hp')
+      refine ⟨q', ?_, hR'⟩
+      have hne : q' ≠ q := by
+        intro he; subst he
+        have := hinj p p' q' hR hR'
+        subst this
+        exact hn'.1 hp'
+      exact (List.mem_erase_of_ne hne).mpr hq'
+    have h2 : (qs.erase q).length = qs.length - 1 := List.length_erase_of_mem hq
+    have h3 : 0 < qs.length := List.length_pos_of_mem hq
+    simp only [List.length_cons]
+    omega
 
 /-! ## the runs at line and func granularity do not look at the track-scope trees -/
 
